@@ -173,3 +173,52 @@ Qed.
 (* field_from is not injective off the image: it ignores trailing bytes *)
 Lemma field_from_ignores_tail : forall f r, field_from_db_sort_key (f :: r) = Some f.
 Proof. reflexivity. Qed.
+
+(* ---- Map key vs Sorted key: a collision forces an 18-byte overlap of two hash prefixes ---- *)
+Section CrossKind.
+  Variable H : bytes -> bytes.
+  Hypothesis H_len : forall x, length (H x) = HASH_LENGTH.
+
+  Lemma split_at : forall (n : nat) (l : bytes), l = firstn n l ++ skipn n l.
+  Proof. intros. symmetry. apply firstn_skipn. Qed.
+
+  Lemma map_vs_sorted_collision : forall k p k' db, length p = 2%nat ->
+    to_db_sort_key H (KMap k) = Some db -> to_db_sort_key H (KSorted p k') = Some db ->
+    k = skipn 18 (hp H k') ++ k' /\ p = firstn 2 (hp H k) /\ skipn 2 (hp H k) = firstn 18 (hp H k').
+  Proof.
+    intros k p k' db Lp E1 E2. cbn [to_db_sort_key] in E1, E2. unfold map_to_db_sort_key in E1.
+    rewrite (to_hash_prefixed_eq H H_len) in E1. rewrite (sorted_to_eq H H_len) in E2.
+    assert (hp H k ++ k = p ++ hp H k' ++ k') as E by congruence. clear E1 E2.
+    pose proof (hp_length H H_len k) as L1. pose proof (hp_length H H_len k') as L2. unfold HASHED_PREFIX_LENGTH in *.
+    rewrite (split_at 2 (hp H k)) in E at 1. rewrite (split_at 18 (hp H k')) in E at 1. rewrite <- !app_assoc in E.
+    apply app_inj_eq_len in E; [|rewrite firstn_length, L1, Lp; reflexivity]. destruct E as [Ep E].
+    apply app_inj_eq_len in E; [|rewrite skipn_length, firstn_length, L1, L2; reflexivity]. destruct E as [Es Ek].
+    split; [exact Ek|]. split; [symmetry; exact Ep|exact Es].
+  Qed.
+
+  (* the hypothesis under which Map and Sorted keys never collide: for no k' do bytes 2..20 of the hash
+     prefix of (last two prefix bytes of k' ++ k') equal bytes 0..18 of the hash prefix of k' *)
+  Definition NoShiftedOverlap : Prop :=
+    forall k', skipn 2 (hp H (skipn 18 (hp H k') ++ k')) <> firstn 18 (hp H k').
+
+  Lemma map_vs_sorted_distinct : NoShiftedOverlap -> forall k p k' db, length p = 2%nat ->
+    to_db_sort_key H (KMap k) = Some db -> to_db_sort_key H (KSorted p k') = Some db -> False.
+  Proof.
+    intros NS k p k' db Lp E1 E2. destruct (map_vs_sorted_collision k p k' db Lp E1 E2) as [Ek [_ Es]].
+    subst k. exact (NS k' Es).
+  Qed.
+
+  Lemma sort_key_inj_all_kinds : NoShiftedOverlap -> forall k1 k2 db, key_wf k1 -> key_wf k2 ->
+    to_db_sort_key H k1 = Some db -> to_db_sort_key H k2 = Some db -> k1 = k2.
+  Proof.
+    intros NS k1 k2 db W1 W2 E1 E2.
+    destruct k1 as [f1|m1|p1 s1], k2 as [f2|m2|p2 s2];
+      try (apply (sort_key_inj_same_kind H H_len _ _ db W1 W2 eq_refl E1 E2)).
+    - symmetry. apply (field_vs_other H H_len f1 _ db E1 E2).
+    - symmetry. apply (field_vs_other H H_len f1 _ db E1 E2).
+    - apply (field_vs_other H H_len f2 _ db E2 E1).
+    - exfalso. exact (map_vs_sorted_distinct NS m1 p2 s2 db W2 E1 E2).
+    - apply (field_vs_other H H_len f2 _ db E2 E1).
+    - exfalso. exact (map_vs_sorted_distinct NS m2 p1 s1 db W1 E2 E1).
+  Qed.
+End CrossKind.
